@@ -102,7 +102,17 @@ impl<C: BlsSignatureImpl> PublicKey<C> {
             SignatureSchemes::MessageAugmentation => <C as BlsSignatureMessageAugmentation>::DST,
             SignatureSchemes::ProofOfPossession => <C as BlsSignaturePop>::SIG_DST,
         };
-        let (u, v, w) = <C as BlsTimeCrypt>::seal(self.0, msg.as_ref(), id.as_ref(), dst)?;
+        // The message augmentation scheme signs `pk || id`, so seal to that value
+        let id = match scheme {
+            SignatureSchemes::MessageAugmentation => {
+                let mut aug =
+                    <C as BlsSignatureMessageAugmentation>::pk_bytes(self.0, id.as_ref().len());
+                aug.extend_from_slice(id.as_ref());
+                aug
+            }
+            _ => id.as_ref().to_vec(),
+        };
+        let (u, v, w) = <C as BlsTimeCrypt>::seal(self.0, msg.as_ref(), id.as_slice(), dst)?;
         Ok(TimeCryptCiphertext { u, v, w, scheme })
     }
 
